@@ -7,20 +7,22 @@
     [debug_assert], a [{:width$}] above the u16 limit).  [dw] is the display-width function (arbitrary).
     [cmd_ok dw c]: the arguments are built ([arg_ok]: the number of values is resolved, a positional takes
     a value and has an index) and every rendered left column is at most 65 523 columns wide (observation N:
-    core::fmt limits run-time widths to u16; the bound is 65 535 - 12). *)
-From ClapModel Require Import Base.Bytes Base.Machine Parse.Cmd Parse.Build Parse.Valid Parse.Errors Parse.Parser.
-From ClapModel Require Import Gen.HelpTables Help.UsageModel Help.HelpModel Help.HelpProofs Help.HelpLevel Help.HelpSpecVals Help.HelpDispatch Help.HelpUsage Help.HelpGlobals.
+    core::fmt limits run-time widths to u16; the bound is 65 535 - 12).
+    [refs_ok c] (round 3, groups and [requires]): group ids are unique, every group member is an argument,
+    every id named by a [requires] rule of an argument or of a group exists -- what debug_asserts.rs checks. *)
+From ClapModel Require Import Base.Bytes Base.Machine Parse.Cmd Parse.Build Parse.Valid Parse.Matcher Parse.Errors Parse.Validator Parse.Parser.
+From ClapModel Require Import Gen.HelpTables Help.UsageModel Help.HelpModel Help.HelpReqs Help.HelpProofs Help.HelpLevel Help.HelpSpecVals Help.HelpDispatch Help.HelpUsage Help.HelpGlobals.
 From RecordUpdate Require Import RecordSet.
 Import RecordSetNotations.
 Open Scope N_scope.
 
 (** no panic, for every command, width, mode and display-width function *)
-Theorem C12_padding_safe : forall dw c use_long w, cmd_ok dw c -> write_help dw c use_long w <> None.
+Theorem C12_padding_safe : forall dw c use_long w, cmd_ok dw c -> refs_ok c = true -> write_help dw c use_long w <> None.
 Proof. exact padding_safe. Qed.
 Print Assumptions C12_padding_safe.
 
 Theorem C12_render_total : forall dw c use_long w,
-  hc_built c = false -> spec_ok c -> widths_ok dw (h_build_self c) ->
+  hc_built c = false -> spec_ok c -> widths_ok dw (h_build_self c) -> refs_ok (h_build_self c) = true ->
   render_help dw c use_long w <> None /\ render_usage c <> None.
 Proof. exact render_total. Qed.
 Print Assumptions C12_render_total.
@@ -64,10 +66,13 @@ Theorem C12_hidden_not_shown : forall use_long a,
 Proof. exact hidden_not_shown. Qed.
 Print Assumptions C12_hidden_not_shown.
 
-(** an optional hidden argument contributes no piece of the usage line *)
-Theorem C12_usage_hides_hidden : forall c items a,
-  NoDup (map ha_id (hc_args c)) -> args_ok c -> usage_arg_items c = Some items ->
-  In a (hc_args c) -> ha_hide a = true -> ha_required a = false -> ~ In (ha_id a) (map fst items).
+(** a hidden argument that is optional -- not required, and named by no unconditional [requires] rule of an
+    argument nor as / by a required group ([req_srcb] = false; round 3) -- contributes no piece of the usage
+    line, in either form ([force_optional] = the second line under [subcommand_negates_reqs]) *)
+Theorem C12_usage_hides_hidden : forall c fo items a,
+  NoDup (map ha_id (hc_args c)) -> args_ok c -> refs_ok c = true -> usage_arg_items c fo = Some items ->
+  In a (hc_args c) -> ha_hide a = true -> req_srcb c (ha_id a) = false -> find_group (pcmd_of c) (ha_id a) = None ->
+  ~ In (ha_id a) (map fst items).
 Proof. exact usage_hides_hidden. Qed.
 Print Assumptions C12_usage_hides_hidden.
 
@@ -119,6 +124,9 @@ Theorem C12_hypotheses_satisfiable :
   hc_built ex_cmd = false /\ spec_ok ex_cmd /\ cmd_ok len (h_build_self ex_cmd)
   /\ NoDup (map ha_id (hc_args (h_build_self ex_cmd))) /\ NoDup (map sc_str (hc_subs (h_build_self ex_cmd))).
 Proof. exact ex_cmd_hyps. Qed.
+Theorem C12_hypotheses_satisfiable_refs : refs_ok (h_build_self ex_cmd) = true.
+Proof. exact ex_cmd_refs. Qed.
+Print Assumptions C12_hypotheses_satisfiable_refs.
 Print Assumptions C12_hypotheses_satisfiable.
 
 (** ---- round 2: [spec_vals] (env, defaults, aliases, possible values) ---- *)
@@ -219,24 +227,96 @@ Theorem C12_help_chain_satisfiable :
 Proof. exact hd_hyps. Qed.
 Print Assumptions C12_help_chain_satisfiable.
 
-(** ---- round 2: the usage line mentions every required positional ---- *)
+(** ---- rounds 2 and 3: the usage line (groups, [requires], the subcommand forms) ---- *)
 
-(** on a built command whose positional indices identify the argument (what [_build_self] and the debug
-    asserts establish) every required positional -- hidden or not -- has its piece in the usage line *)
+(** the usage line never panics: for every built command whose references resolve, [write_help_usage]
+    (without [flatten_help]) returns its pieces -- the worklists of [unroll_arg_requires] /
+    [unroll_args_in_group] terminate, the [expect] of the group lookup, both [debug_assert!]s of
+    [write_args], [pos.get_index().unwrap()] and the [debug_assert!] of [render_arg_val] are not reached *)
+Theorem C12_usage_total : forall c, args_ok c -> refs_ok c = true -> usage_pieces c <> None.
+Proof. exact usage_total. Qed.
+Print Assumptions C12_usage_total.
+
+(** where every piece of [Usage::write_args] comes from: an argument among the unrolled requirements that
+    is not a member of a listed group, a positional that is not hidden (nor such a member), or a group among
+    the requirements, written by [format_group] *)
+Theorem C12_usage_piece_sources : forall c fo, args_ok c -> refs_ok c = true ->
+  exists items, usage_arg_items c fo = Some items /\ forall x, In x items -> usage_src c x.
+Proof. exact usage_arg_items_spec. Qed.
+Print Assumptions C12_usage_piece_sources.
+
+(** every required argument is mentioned: inside the [<a|b>] piece of a listed group it is a member of,
+    else by a piece of its own (positional: its slot; option: its rendered text) *)
+Theorem C12_usage_mentions_required : forall c a,
+  NoDup (map ha_id (hc_args c)) -> In a (hc_args c) ->
+  (forall b i, In b (hc_args c) -> ha_index b = Some i -> ha_index a = Some i -> ha_id b = ha_id a) ->
+  forall items, args_ok c -> refs_ok c = true -> usage_arg_items c false = Some items -> ha_required a = true ->
+  if mem_id (ha_id a) (usage_members c)
+  then exists g gm txt, In g (usage_reqs c) /\ unroll_args_in_group (pcmd_of c) g = Some gm /\ In (ha_id a) gm
+                        /\ format_group c g = Some txt /\ In txt (map snd items)
+  else match ha_index a with
+       | Some _ => In (ha_id a) (map fst items)
+       | None => forall s, stylized a (Some true) = Some s -> In s (map snd items)
+       end.
+Proof. exact usage_mentions_required. Qed.
+Print Assumptions C12_usage_mentions_required.
+
+(** round 2's statement for positionals, for commands with groups *)
 Theorem C12_usage_lists_required_positionals : forall c items a,
-  args_ok c -> usage_arg_items c = Some items ->
+  NoDup (map ha_id (hc_args c)) -> args_ok c -> refs_ok c = true -> usage_arg_items c false = Some items ->
   In a (hc_args c) -> ha_is_positional a = true -> ha_required a = true ->
+  mem_id (ha_id a) (usage_members c) = false ->
   (forall b, In b (hc_args c) -> ha_index b = ha_index a -> ha_id b = ha_id a) ->
   In (ha_id a) (map fst items).
 Proof. exact usage_lists_required_positionals. Qed.
 Print Assumptions C12_usage_lists_required_positionals.
 
+(** non-vacuity: required group [<--a|--b <b>>], [--r] requires [--x], hidden optional [--z], required
+    positional [f], optional hidden [last] positional [l]: every hypothesis of the three theorems holds *)
 Theorem C12_usage_required_satisfiable :
-  args_ok ex_built /\ usage_arg_items ex_built = Some [([102], [60; 102; 62])] /\ In ex_f (hc_args ex_built)
-  /\ ha_is_positional ex_f = true /\ ha_required ex_f = true
-  /\ (forall b, In b (hc_args ex_built) -> ha_index b = ha_index ex_f -> ha_id b = ha_id ex_f).
-Proof. exact ex_cmd_usage. Qed.
+  NoDup (map ha_id (hc_args rq_built)) /\ args_ok rq_built /\ refs_ok rq_built = true
+  /\ (exists items, usage_arg_items rq_built false = Some items)
+  /\ In (rq_arg 4) (hc_args rq_built) /\ ha_hide (rq_arg 4) = true /\ req_srcb rq_built (ha_id (rq_arg 4)) = false
+  /\ find_group (pcmd_of rq_built) (ha_id (rq_arg 4)) = None
+  /\ In (rq_arg 6) (hc_args rq_built) /\ ha_hide (rq_arg 6) = true /\ ha_last (rq_arg 6) = true
+  /\ req_srcb rq_built (ha_id (rq_arg 6)) = false /\ find_group (pcmd_of rq_built) (ha_id (rq_arg 6)) = None
+  /\ ha_required (rq_arg 2) = true /\ ha_required (rq_arg 5) = true
+  /\ mem_id (ha_id (rq_arg 2)) (usage_members rq_built) = false
+  /\ mem_id (ha_id (rq_arg 0)) (usage_members rq_built) = true
+  /\ (forall b i, In b (hc_args rq_built) -> ha_index b = Some i -> ha_index (rq_arg 5) = Some i -> ha_id b = ha_id (rq_arg 5)).
+Proof. exact rq_hyps. Qed.
 Print Assumptions C12_usage_required_satisfiable.
+
+(** its usage line: [p [OPTIONS] --x --r <r> <--a|--b <b>> <f>] (neither [--z] nor [[-- <l>...]]) *)
+Theorem C12_usage_required_example :
+  usage_pieces rq_built
+  = Some [[112]; s_options_tag; [45; 45; 120]; [45; 45; 114; 32; 60; 114; 62];
+          [60; 45; 45; 97; 124; 45; 45; 98; 32; 60; 98; 62; 62]; [60; 102; 62]].
+Proof. exact rq_usage. Qed.
+Print Assumptions C12_usage_required_example.
+
+(** the subcommand forms ([subcommand_value_name] = V): [[V]], [<V>] under [subcommand_required], a second
+    line [p [f] <V>] under [subcommand_negates_reqs], [p <V>] under [args_conflicts_with_subcommands] *)
+Theorem C12_usage_subcommand_forms :
+  usage_pieces (h_build_self (sf_cmd false false false))
+    = Some [[112]; [45; 45; 114; 32; 60; 114; 62]; [60; 102; 62]; [91; 86; 93]]
+  /\ usage_pieces (h_build_self (sf_cmd false false true))
+    = Some [[112]; [45; 45; 114; 32; 60; 114; 62]; [60; 102; 62]; [60; 86; 62]]
+  /\ usage_pieces (h_build_self (sf_cmd true false false))
+    = Some [[112]; [45; 45; 114; 32; 60; 114; 62]; [60; 102; 62]; s_usage_sep; [112]; [91; 102; 93]; [60; 86; 62]]
+  /\ usage_pieces (h_build_self (sf_cmd false true false))
+    = Some [[112]; [45; 45; 114; 32; 60; 114; 62]; [60; 102; 62]; s_usage_sep; [112]; [60; 86; 62]].
+Proof. exact sf_usage. Qed.
+Print Assumptions C12_usage_subcommand_forms.
+
+(** observation (the class of [C12_usage_hides_hidden] is sharp): a hidden optional argument that is a
+    member of a required group is printed by [format_group]: [p <--a|--z>] *)
+Theorem C12_usage_hidden_group_member_shown :
+  exists c a, In a (hc_args c) /\ ha_hide a = true /\ ha_required a = false /\ ha_long a = Some [122]
+    /\ refs_ok (h_build_self c) = true
+    /\ usage_pieces (h_build_self c) = Some [[112]; [60; 45; 45; 97; 124; 45; 45; 122; 62]].
+Proof. exact hidden_group_member_shown. Qed.
+Print Assumptions C12_usage_hidden_group_member_shown.
 
 (** ---- round 2: global arguments are inherited into the subcommand levels ---- *)
 
